@@ -1,6 +1,6 @@
 (* C02 property theorems (theorems only). *)
 From Wz Require C06.LibPy C06.Model.
-From Wz Require Import lib.Bytes lib.Utf8 C01.Model C01.Hold C01.Render C01.HeaderBlock C02.Gen C02.Model C02.Proofs C02.Encoder C02.Roundtrip C02.Identity.
+From Wz Require Import lib.Bytes lib.Utf8 C01.Model C01.Hold C01.Render C01.HeaderBlock C02.Gen C02.Model C02.Proofs C02.Encoder C02.Roundtrip C02.Identity C02.Client C02.ClientProofs.
 Open Scope N_scope.
 
 (* URL-encoded forms and query strings round-trip for every list of Unicode pairs: repeated keys,
@@ -99,3 +99,45 @@ Example C02_part_identity_example :
   = Some [([67; 111; 110; 116; 101; 110; 116; 45; 84; 121; 112; 101], [116; 101; 120; 116; 47; 112; 108; 97; 105; 110])].
 Proof. exact part_identity_example. Qed.
 Print Assumptions C02_part_identity_example.
+
+(* ---- the test client / environ builder path (test.stream_encode_multipart, statements pinned by the
+   translator; C02/Client.v is its event sequence: text values as one final Data event, file values
+   as one Data event per chunk read() returned plus an empty final one) *)
+
+(* the bytes it writes are a rendered CRLF body with empty preamble and epilogue *)
+Theorem C02_client_wire : forall B items,
+  stream_encode B items
+  = Some (render B LBcrlf ([] ++ CRLF) (map to_rpart (map client_part items)) (CRLF ++ [])).
+Proof. exact client_wire. Qed.
+Print Assumptions C02_client_wire.
+
+(* ... and depend on each item only through its header block and content: the number and sizes of
+   the chunks the file objects handed out (short reads, the read size of the source) leave no trace *)
+Theorem C02_client_wire_reads_irrelevant : forall B items items',
+  map item_ident items = map item_ident items' -> stream_encode B items = stream_encode B items'.
+Proof. exact client_wire_reads_irrelevant. Qed.
+Print Assumptions C02_client_wire_reads_irrelevant.
+
+(* round trip: for every item list the boundary can carry and EVERY chunking on the decoder side,
+   the decoder returns one part per item, in order, with the item's header block (parsed) and its
+   content byte for byte *)
+Theorem C02_client_roundtrip : forall B items wire chunks,
+  good_boundary B = true ->
+  wf_body B LBcrlf ([] ++ CRLF) (map to_rpart (map client_part items)) (CRLF ++ []) = true ->
+  stream_encode B items = Some wire ->
+  concat chunks = wire ->
+  exists evs, drive no_limits B chunks = Ok evs /\
+    Forall2 (fun a it => parse_headers (fst a) = parse_headers (fst (item_ident it)) /\ snd a = item_content it)
+            (parts_of evs) items.
+Proof. exact client_roundtrip. Qed.
+Print Assumptions C02_client_roundtrip.
+
+Example C02_client_example :
+  let items := [CText [97] [98; 233]; CFile [102] (Some [116; 46; 98]) [([67; 45; 84], [116; 47; 112])] [[120; 13]; [10; 45; 45]]] in
+  let items' := [CText [97] [98; 233]; CFile [102] (Some [116; 46; 98]) [([67; 45; 84], [116; 47; 112])] [[120]; []; [13; 10; 45; 45]]] in
+  good_boundary [66; 110; 100] = true /\
+  wf_body [66; 110; 100] LBcrlf ([] ++ CRLF) (map to_rpart (map client_part items)) (CRLF ++ []) = true /\
+  map item_ident items = map item_ident items' /\
+  stream_encode [66; 110; 100] items = stream_encode [66; 110; 100] items'.
+Proof. exact client_example. Qed.
+Print Assumptions C02_client_example.
